@@ -1,55 +1,437 @@
-"""C03 write permission: theorems in coq/Props/PropC03.v; correspondence and monitor through
-the topic-history driver."""
+"""C03 write permission: theorems in coq/Props/PropC03.v; correspondence and monitor through the C03
+driver (harness/overlay/server/zz_verif_c03x_test.go = the topic-history driver plus topic deletion in
+two halves, user suspension, me/fnd/sys) and the extracted model coq/Sys/TopicLife.v over Sys/Topic.v."""
+import os
 import re
+import subprocess
+import vlib
 from props import statelib
+from props import topiclib as T
 from props.statelib import kvs, eff
 
+PUB_KINDS = ("pub", "pubme", "pubfnd", "pubsys")
+# known findings (KNOWN_FINDINGS.txt, findings/C03.md): reported through ctx.violation with these keys
+KNOWN = ("stale-cache-offline-setsub", "stale-cache-transfer-fault", "suspended-owner-accepted-after-reload")
 
-def monitor(sc, views):
+W_MODES = ["JRWPS", "JRWPAS", "JRWP", "JRW", "JW", "JRWPASD", "JRWPSD"]
+NOW_MODES = ["JRPS", "JRPAS", "JRP", "JR", "JP", "JRPASD", "N", "JPS"]
+O_MODES = ["JRWPASDO", "JRPSO", "JRWPSO", "JRPASDO"]
+
+
+def hx(s):
+    return T.hx(s)
+
+
+def unhex(h):
+    return "" if h in ("-", "") else bytes.fromhex(h).decode("latin1")
+
+
+# ---------------------------------------------------------------------------
+# generators
+
+def resub(rng, sc, ops, p=0.9):
+    for s in sorted(sc.sessions):
+        if rng.random() < p:
+            ops.append(("N", "sub", [s, "-", 0]))
+
+
+def rand_fault(rng, p, ks=(1, 1, 1, 2, 2, 3, 4), kinds=("F", "F", "C")):
+    if rng.random() >= p:
+        return "N"
+    return rng.choice(kinds) + str(rng.choice(ks))
+
+
+def sessions_of(sc, u):
+    return [s for s in sorted(sc.sessions) if sc.sessions[s] == u]
+
+
+def letters(n):
+    return "".join(c for b, c in zip((1, 2, 4, 8, 16, 32, 64, 128), "JRWPASDO") if n & b)
+
+
+def gen_permfault(rng, sc, nops):
+    """A permission-changing request (fault on every adapter-call position of it, or none) followed by
+    publishes of the user it is about and of somebody else.  The generator keeps an estimate of every
+    user's stored want/given so that most requests really toggle W for an attached member."""
+    sids = sorted(sc.sessions)
+    users = list(range(1, sc.nusers + 1))
+    # members: most want W; about half of them are not granted W
+    head = [h for h in sc.head if not h.startswith("subrow ")]
+    at = max(i for i, h in enumerate(head) if h.startswith("user ")) + 1
+    rows = []
+    for u in users[1:]:
+        if len(rows) < 3 and rng.random() < 0.8:
+            rows.append("subrow %d want=%d given=%d" % (u, rng.choice([47, 47, 47, 47, 63, 15, 7, 43, 3]),
+                                                        rng.choice([47, 47, 47, 63, 43, 43, 43, 3, 3, 11, 59])))
+    sc.head = head[:at] + rows + head[at:]
+    want, given = {}, {}
+    for h in sc.head:
+        w = h.split()
+        d = kvs(h)
+        if w[0] == "scn":
+            want[1], given[1] = letters(int(d["ownerwant"])), letters(int(d["ownergiven"]))
+        elif w[0] == "subrow":
+            want[int(w[1])], given[int(w[1])] = letters(int(d["want"])), letters(int(d["given"]))
+
+    def toggle(cur):
+        if rng.random() < 0.2:
+            return rng.choice(W_MODES + NOW_MODES + [""])
+        return rng.choice(NOW_MODES[:6]) if "W" in cur else rng.choice(W_MODES)
+
+    ops = []
+    resub(rng, sc, ops, 0.95)
+    cnt = 100
+    for _ in range(nops):
+        r = rng.random()
+        members = [u for u in users if u in given]
+
+        def fault_for(ncalls):
+            # Fail k / Crash k at every adapter-call position of the request (and sometimes one past the last)
+            return rand_fault(rng, 0.6, ks=tuple(range(1, ncalls + 1)) * 3 + (ncalls + 1,), kinds=("F", "F", "F", "C"))
+        if r < 0.42:      # approver changes somebody else's given
+            actor = rng.choice(sessions_of(sc, 1) * 4 + sids)
+            cand = [u for u in members if u != sc.sessions[actor]] or [u for u in users if u != sc.sessions[actor]] or users
+            tgt = rng.choice(cand * 3 + users)
+            m = toggle(given.get(tgt, ""))
+            flt = fault_for(1 if tgt in given else 3)    # Subs.Update | Subs.Get, Users.Get, Subs.Create
+            ops.append((flt, "setsub", [actor, tgt, hx(m)]))
+            if flt == "N" and sc.sessions[actor] == 1 and tgt in given and m:
+                given[tgt] = m
+        elif r < 0.64:    # own want
+            actor = rng.choice(sids)
+            tgt = sc.sessions[actor]
+            m = toggle(want.get(tgt, "")) if rng.random() < 0.85 else rng.choice(O_MODES)
+            if tgt == 1 and "O" not in m:
+                m += "O"
+            flt = fault_for(3 if "O" in m and tgt != 1 else 1)   # Subs.Update (+ previous owner, Topics.OwnerChange)
+            ops.append((flt, "setsub", [actor, rng.choice([0, tgt]), hx(m)]))
+            if flt == "N" and tgt in want:
+                want[tgt] = m
+        elif r < 0.75:    # {sub} with a mode (from a session that may or may not be attached)
+            actor = rng.choice(sids)
+            tgt = sc.sessions[actor]
+            if rng.random() < 0.6:
+                ops.append(("N", "leave", [actor, 0]))
+            m = rng.choice(W_MODES + NOW_MODES + O_MODES[:2] + ["", ""])
+            flt = fault_for(rng.choice([1, 2, 2, 4]))            # (Topics.Get, GetSubs,) Subs.Get, Subs.Create | Subs.Update
+            ops.append((flt, "sub", [actor, hx(m), 0]))
+        elif r < 0.84:    # {leave unsub}
+            actor = rng.choice(sids)
+            tgt = sc.sessions[actor]
+            flt = fault_for(1)                                   # Subs.Delete
+            ops.append((flt, "leave", [actor, 1]))
+            if flt == "N" and tgt != 1:
+                want.pop(tgt, None)
+                given.pop(tgt, None)
+        elif r < 0.93:    # {del sub}
+            actor = rng.choice(sessions_of(sc, 1) * 3 + sids)
+            tgt = rng.choice(members + users)
+            flt = fault_for(1)                                   # Subs.Delete
+            ops.append((flt, "delsub", [actor, tgt]))
+            if flt == "N" and sc.sessions[actor] == 1 and tgt != 1:
+                want.pop(tgt, None)
+                given.pop(tgt, None)
+        else:
+            tgt = rng.choice(users)
+            kd = rng.choice(["unload", "getsub", "getdesc"])
+            flt = "N"
+            ops.append(("N", kd, [] if kd == "unload" else [rng.choice(sids)]))
+        if flt[0] == "C":
+            resub(rng, sc, ops, 0.95)
+        elif rng.random() < 0.2:
+            resub(rng, sc, ops, 0.5)
+        pubbers = sessions_of(sc, tgt) + [rng.choice(sids)]
+        for s in pubbers:
+            cnt += 1
+            ops.append(("N" if rng.random() < 0.92 else rand_fault(rng, 1.0), "pub", [s, cnt, 0]))
+    sc.ops = ops
+    return sc
+
+
+def gen_life(rng, sc, nops):
+    """Topic states in which nobody may publish (delete in flight, owner suspended), other topic kinds."""
+    sids = sorted(sc.sessions)
+    users = list(range(1, sc.nusers + 1))
+    owner_s = sessions_of(sc, 1)
+    ops = []
+    resub(rng, sc, ops, 0.85)
+    cnt = [200]
+
+    def pubs(n, fault_p=0.0):
+        for _ in range(n):
+            cnt[0] += 1
+            ops.append((rand_fault(rng, fault_p), "pub", [rng.choice(sids), cnt[0], 1 if rng.random() < 0.15 else 0]))
+
+    pubs(rng.randint(0, 2))
+    for _ in range(nops):
+        r = rng.random()
+        if r < 0.30:
+            # the owner deletes the topic; publishes while the hub is inside store.Topics.Delete
+            ops.append((rng.choice(["N", "N", "N", "F1", "F1", "C1", "F2"]), "delbegin", [rng.choice(owner_s if rng.random() < 0.9 else sids)]))
+            for _ in range(rng.randint(1, 3)):
+                cnt[0] += 1
+                ops.append(("N", "pub", [rng.choice(sids), cnt[0], 1 if rng.random() < 0.15 else 0]))
+            if rng.random() < 0.6:
+                ops.append(("N", "delend", []))
+            pubs(rng.randint(1, 2))
+            if rng.random() < 0.5:
+                resub(rng, sc, ops, 0.7)
+                pubs(1)
+        elif r < 0.60:
+            u = 1 if rng.random() < 0.7 else rng.choice(users)
+            ops.append((rand_fault(rng, 0.3, ks=(1, 2, 2, 3)), "suspend", [u, 1 if rng.random() < 0.75 else 0]))
+            if ops[-1][0][0] == "C":
+                resub(rng, sc, ops, 0.9)
+            pubs(rng.randint(1, 3), 0.1)
+            t = rng.random()
+            if t < 0.3:
+                ops.append((rand_fault(rng, 0.2, ks=(1, 2)), "suspend", [u, 0]))
+                pubs(rng.randint(1, 2))
+            elif t < 0.55:
+                # the read-only bit does not survive a reload (known finding)
+                ops.append(("N", "restart", []) if rng.random() < 0.7 else ("N", "unload", []))
+                resub(rng, sc, ops, 0.9)
+                pubs(rng.randint(1, 2))
+            elif t < 0.75:
+                s = rng.choice(sids)
+                ops.append(("N", "setsub", [s, rng.choice(users), hx(rng.choice(W_MODES + NOW_MODES))]))
+                ops.append(("N", "note", [rng.choice(sids), "kp", 0]))
+                pubs(1)
+        elif r < 0.85:
+            for _ in range(rng.randint(1, 3)):
+                k = rng.random()
+                s = rng.choice(sids)
+                cnt[0] += 1
+                if k < 0.25:
+                    which = rng.choice(["me", "fnd"])
+                    ops.append(("N", "sub" + which, [s]))
+                    ops.append(("N", "pub" + which, [s, cnt[0]]))      # attached: refused for want of W (ModeCSelf)
+                elif k < 0.5:
+                    ops.append(("N", rng.choice(["pubme", "pubfnd"]), [s, cnt[0]]))
+                else:
+                    ops.append((rand_fault(rng, 0.3, ks=(1, 2, 2, 3)), "pubsys", [s, cnt[0]]))
+                    if ops[-1][0][0] == "C":
+                        resub(rng, sc, ops, 0.8)
+        else:
+            k = rng.random()
+            if k < 0.4:
+                ops.append(("N", "setsub", [rng.choice(sids), rng.choice([0] + users), hx(rng.choice(W_MODES + NOW_MODES))]))
+            elif k < 0.6:
+                ops.append(("N", "leave", [rng.choice(sids), 0]))
+            elif k < 0.8:
+                ops.append(("N", "sub", [rng.choice(sids), "-", 0]))
+            else:
+                ops.append(("N", rng.choice(["unload", "restart"]), []))
+            pubs(1)
+    sc.ops = ops
+    return sc
+
+
+_orig_gen_scenarios = T.gen_scenarios
+
+
+def gen_scenarios(ctx, count, profile, faults=0.0, nops=(6, 22), prefix="g"):
+    if profile in ("msg", "perm"):
+        return _orig_gen_scenarios(ctx, count, profile, faults, nops, prefix)
     res = []
-    prev = None
-    tainted = False   # a known cache/store divergence trigger (C08 findings) has happened: the iff is not judged
+    for i in range(count):
+        sc = T.gen_setup(ctx.rng, "%s%d" % (prefix, i), "msg" if profile == "life" else "perm")
+        if profile == "permfault":
+            gen_permfault(ctx.rng, sc, ctx.rng.randint(2, 6))
+        else:
+            gen_life(ctx.rng, sc, ctx.rng.randint(2, 5))
+        res.append(sc)
+    return res
+
+
+# ---------------------------------------------------------------------------
+# running the C03 driver / the C03 model runner (same block format as the topic driver)
+
+def run_impl(ctx, scns, tag="t"):
+    fin = os.path.join(ctx.work, "scn_%s.in" % tag)
+    fout = os.path.join(ctx.work, "scn_%s.impl" % tag)
+    with open(fin, "w") as f:
+        for sc in scns:
+            f.write("\n".join(sc.lines()) + "\n")
+    if os.path.exists(fout):
+        os.remove(fout)
+    env = dict(vlib.GOENV, VERIF_IN=fin, VERIF_OUT=fout)
+    p = subprocess.run([os.path.join(vlib.BUILD, "maindrv.test"), "-test.run", "^TestVerifC03x$", "-test.count=1", "-test.timeout=3000s"],
+                       stdout=subprocess.PIPE, stderr=subprocess.STDOUT, env=env, cwd=os.path.join(vlib.REPO, "server"), timeout=3400)
+    out = p.stdout.decode("utf8", "replace")
+    lines = open(fout).read().split("\n") if os.path.exists(fout) else []
+    log = "\n".join(l for l in out.split("\n") if not (len(l) > 3 and l[0] in "IWE" and l[1:3] == "20"))
+    return p.returncode, T.parse_blocks(lines), log
+
+
+def run_model(ctx, scns, tag="t"):
+    lines = []
+    for sc in scns:
+        lines += sc.lines()
+    rc, out, err = ctx.run_model("c03x", lines)
+    flat = []
+    for o in out:
+        flat += o.split("\n")
+    return rc, T.parse_blocks(flat), err
+
+
+# ---------------------------------------------------------------------------
+# the property on the implementation's trace
+
+class X:
+    """the extra lines of a block: status bits, suspended users, me/fnd attachments, sys"""
+    def __init__(self, v):
+        self.paused = self.ro = self.window = False
+        self.susp, self.me, self.fnd = set(), set(), set()
+        self.sys_seqid = self.sys_lastid = 0
+        self.sysmsgs = {}
+        for l in v.b["store"]:
+            w = l.split()
+            if w[0] == "xstatus":
+                d = kvs(l)
+                self.paused, self.ro, self.window = d["paused"] == "1", d["ro"] == "1", d.get("window") == "1"
+            elif w[0] in ("susp", "me", "fnd"):
+                setattr(self, w[0], set(int(x) for x in (w[1].split(",") if len(w) > 1 else []) if x))
+            elif w[0] == "sys":
+                d = kvs(l)
+                self.sys_seqid, self.sys_lastid = int(d["seqid"]), int(d["lastid"])
+            elif w[0] == "sysmsg":
+                d = kvs(l)
+                self.sysmsgs[int(w[1])] = (int(d["from"]), d["content"])
+
+
+def modes(row):
+    return None if row is None or row.get("deleted") else (row["want"], row["given"])
+
+
+def monitor(sc, views, known_hit=None):
+    res = []
+    if not sc.sessions:
+        # corpus / replay scenarios carry only the head lines
+        sc.sessions = {int(h.split()[1]): int(h.split()[2]) for h in sc.head if h.startswith("sess ")}
+        sc.nusers = len([h for h in sc.head if h.startswith("user ")])
+    prev = px = None
+    div = {}            # user -> name of the known stale-cache trigger that hit him since the topic was loaded
+    ro_lost = False     # the owner is suspended and the topic was (re)loaded since: the read-only bit is gone (known finding)
     for k, v in enumerate(views):
         fault, kind, args = sc.ops[k]
+        x = X(v)
+        sid = args[0] if args and kind != "suspend" else None
+        actor = sc.sessions.get(sid) if sid is not None else None
+        mine = [t for s, t in v.frames if s == sid and t.startswith("ctrl ")] if sid is not None else []
+        acked = bool(mine) and mine[0].startswith("ctrl 202")
+
+        def known(law, detail):
+            if known_hit is not None:
+                known_hit(law, sc, k, detail)
+
+        def rejected_clean(what):
+            if not mine:
+                res.append(("rejected-gets-error-reply", k, "%s got no reply" % what))
+            elif int(mine[0].split()[1]) < 400:
+                res.append(("rejected-gets-error-reply", k, "rejected %s answered %s" % (what, mine[0])))
+            others = [(s, t) for s, t in v.frames if not (s == sid and t.startswith("ctrl "))]
+            if others or v.pres:
+                res.append(("rejected-no-effect", k, "rejected %s produced frames %s %s" % (what, others, v.pres)))
+            # (a request other than {pub} to the group topic first lets a held delete finish: what that changes is not
+            # an effect of this request)
+            if fault == "N" and not (px.window and kind != "pub"):
+                if v.b["store"] != prev.b["store"]:
+                    res.append(("rejected-no-effect", k, "rejected %s changed the store: %s" %
+                                (what, [l for l in v.b["store"] if l not in prev.b["store"]])))
+                if v.loaded and prev.loaded and v.cache.get("lastid") != prev.cache.get("lastid"):
+                    res.append(("rejected-no-effect", k, "rejected %s consumed a number" % what))
+
         if prev is not None and kind == "pub":
-            sid = args[0]
-            actor = sc.sessions.get(sid)
             row = prev.subs.get(actor)
+            crow = prev.cusers.get(actor) if prev.loaded else None
             attached = prev.loaded and sid in prev.csess
-            writer = row is not None and not row["deleted"] and "W" in eff(row["want"], row["given"])
-            expect = attached and writer
-            mine = [t for s, t in v.frames if s == sid and t.startswith("ctrl ")]
-            acked = bool(mine) and mine[0].startswith("ctrl 202")
-            if fault == "N" and not tainted:
-                if acked and not expect:
-                    res.append(("publish-accepted-without-write", k, "publish by session %d (user %s) accepted; attached=%s, stored mode %s" %
-                                (sid, actor, attached, (row["want"] + "/" + row["given"]) if row else None)))
-                if expect and not acked:
-                    res.append(("publish-by-writer-rejected", k, "publish by attached writer (session %d, user %s) answered %s" % (sid, actor, mine)))
+            writer = modes(row) is not None and "W" in eff(row["want"], row["given"])
+            # "being deleted" = the owner's {del topic} has reached store.Topics.Delete and has not returned (a fact
+            # of the driver, not the topic's own status bit); "suspended" = the read-only bit, which is checked
+            # against the suspension itself by the law read-only-follows-suspension
+            state_ok = not px.window and not px.ro
+            expect = attached and writer and state_ok
+            stale = None
+            if actor in div and prev.loaded and modes(row) != ((crow["want"], crow["given"]) if crow else None):
+                stale = div[actor]
+            desc = "session %d (user %s): attached=%s stored mode %s cached mode %s delete-in-flight=%s paused=%s read-only=%s" % (
+                sid, actor, attached, "/".join(modes(row)) if modes(row) else None,
+                (crow["want"] + "/" + crow["given"]) if crow else None, px.window, px.paused, px.ro)
+            if acked and px.window:
+                res.append(("publish-accepted-while-being-deleted", k, "publish accepted while the topic is being deleted; " + desc))
+            elif acked and px.ro:
+                res.append(("publish-accepted-while-suspended", k, "publish accepted by a suspended (read-only) topic; " + desc))
+            elif acked and not (attached and writer):
+                if stale:
+                    known("stale-cache-" + stale, "publish accepted on the cached mode; " + desc)
+                else:
+                    res.append(("publish-accepted-without-write", k, "publish accepted; " + desc))
+            elif expect and not acked and fault == "N":
+                if stale:
+                    known("stale-cache-" + stale, "publish refused on the cached mode; " + desc)
+                else:
+                    res.append(("publish-by-writer-rejected", k, "publish by an attached writer answered %s; %s" % (mine, desc)))
+            if acked and state_ok and attached and prev.cache.get("owner") in px.susp and ro_lost:
+                known("suspended-owner-accepted-after-reload",
+                      "publish accepted although the owner (user %s) is suspended: the topic was loaded after the suspension; %s"
+                      % (prev.cache.get("owner"), desc))
             if not acked:
-                if not mine:
-                    res.append(("rejected-gets-error-reply", k, "publish got no reply"))
-                elif int(mine[0].split()[1]) < 400:
-                    res.append(("rejected-gets-error-reply", k, "rejected publish answered %s" % mine[0]))
-                others = [(s, t) for s, t in v.frames if not (s == sid and t.startswith("ctrl "))]
-                if others or v.pres:
-                    res.append(("rejected-no-effect", k, "rejected publish produced frames %s %s" % (others, v.pres)))
-                if fault == "N":
-                    if v.b["store"] != prev.b["store"]:
-                        res.append(("rejected-no-effect", k, "rejected publish changed the store: %s" %
-                                    [x for x in v.b["store"] if x not in prev.b["store"]]))
-                    if v.loaded and prev.loaded and v.cache.get("lastid") != prev.cache.get("lastid"):
-                        res.append(("rejected-no-effect", k, "rejected publish consumed a number"))
+                rejected_clean("publish")
             elif fault == "N":
-                n = int(kvs(mine[0])["seq"])
+                n = int(kvs(mine[0]).get("seq", "-1"))
                 m = v.msgs.get(n)
                 if m is None or m["content"] != str(args[1]) or m["frm"] != actor:
-                    res.append(("accepted-stored", k, "accepted message %d not stored as published: %s" % (n, m)))
-        if kind == "setsub" and prev is not None and prev.loaded and args[0] not in prev.csess:
-            tainted = True
-        if fault != "N" and kind in ("sub", "setsub", "delsub", "leave"):
-            tainted = True
-        prev = v
+                    res.append(("accepted-stored", k, "accepted message (%s) not stored as published: %s" % (mine[0], m)))
+        elif prev is not None and kind in ("pubme", "pubfnd"):
+            if acked:
+                res.append(("publish-to-self-or-search-topic-accepted", k, "%s by session %d answered %s" % (kind, sid, mine[0])))
+            else:
+                rejected_clean("publish to " + kind[3:])
+        elif prev is not None and kind == "pubsys":
+            if acked:
+                n = int(kvs(mine[0]).get("seq", "-1"))
+                if n != px.sys_lastid + 1:
+                    res.append(("accepted-stored", k, "message to sys acknowledged as %d, previous was %d" % (n, px.sys_lastid)))
+                if fault == "N" and x.sysmsgs.get(n) != (actor, str(args[1])):
+                    res.append(("accepted-stored", k, "message %d to sys not stored as published: %s" % (n, x.sysmsgs.get(n))))
+            else:
+                if fault == "N":
+                    res.append(("sys-publish-rejected", k, "publish to sys by logged-in session %d (not attached) answered %s" % (sid, mine)))
+                if not mine or int(mine[0].split()[1]) < 400:
+                    res.append(("rejected-gets-error-reply", k, "rejected publish to sys answered %s" % mine))
+                if set(x.sysmsgs) != set(px.sysmsgs) or x.sys_lastid != px.sys_lastid and fault[0] != "C":
+                    res.append(("rejected-no-effect", k, "rejected publish to sys stored something or consumed a number"))
+                if [t for s, t in v.frames if not (s == sid and t.startswith("ctrl "))]:
+                    res.append(("rejected-no-effect", k, "rejected publish to sys produced frames"))
+        # the read-only bit follows the suspension of the owner of a loaded topic
+        if prev is not None and kind == "suspend" and v.loaded and prev.loaded and fault[0] != "C":
+            u, b = int(args[0]), int(args[1]) == 1
+            if (u in x.susp) != (u in px.susp) and prev.cache.get("owner") == u and x.ro != b:
+                res.append(("read-only-follows-suspension", k, "owner %d %s, read-only bit of the loaded topic is %s" %
+                            (u, "suspended" if b else "resumed", x.ro)))
+        # bookkeeping of the known triggers
+        if prev is not None:
+            if not v.loaded or not prev.loaded:
+                div.clear()
+            else:
+                self_req = (kind == "sub") or (kind == "setsub" and args[1] in (0, actor))
+                if kind == "setsub" and self_req and sid not in prev.csess:
+                    if modes(v.subs.get(actor)) != modes(v.cusers.get(actor)):
+                        div[actor] = "offline-setsub"
+                pc = prev.cusers.get(actor)
+                if fault != "N" and kind in ("sub", "setsub") and self_req and "O" in unhex(args[1] if kind == "sub" else args[2]) \
+                        and pc is not None and "O" in pc["given"] and "O" not in pc["want"]:
+                    # a faulted acceptance of a pending ownership transfer (thisUserSub, ownerChange branch)
+                    for u in (actor, prev.cache.get("owner")):
+                        if modes(v.subs.get(u)) != modes(v.cusers.get(u)):
+                            div[u] = "transfer-fault"
+            owner = v.cache.get("owner") if v.loaded else None
+            if owner not in x.susp or not v.loaded:
+                ro_lost = False
+            elif not prev.loaded:
+                ro_lost = True
+        prev, px = v, x
     return res
 
 
@@ -68,9 +450,23 @@ def line_f(kind, l):
 
 
 def run(ctx):
+    # this check runs its own driver and model runner through the shared flow of statelib
+    T.gen_scenarios, T.run_impl, T.run_model = gen_scenarios, run_impl, run_model
+    seen_known = set()
+
+    def known_hit(law, sc, k, detail):
+        if law not in seen_known:
+            seen_known.add(law)
+            ctx.violation("monitor", law, "law %s fails on the implementation's trace: %s" % (law, detail),
+                          {"head": sc.head, "ops": sc.ops[:k + 1], "law": law, "detail": detail})
+
     statelib.run_stateful(
-        ctx, [("msg", 0.0, 0.35), ("perm", 0.0, 0.45), ("perm", 0.1, 0.2)], monitor,
-        dict(ops={"pub"}, frame=frame_f, line=line_f, keys=("frames", "store", "cache")),
-        rule="seeded random histories over one group topic: authors = owner, members, muted, write-less (want or given without W), banned, removed, never subscribed; publishes preceded by random subscribe/set-sub/del-sub/leave histories (arbitrary mode strings), unload/restart; non-trivial = at least one accepted mutating request",
-        trusted=["projection compared for C03: every frame of a pub request, the stored rows and the cached modes/lastID after every request",
-                 "the monitor takes the STORED subscription row as the definition of 'currently subscribed with W in both modes' and skips the iff after a trigger of a known cache/store divergence (offline set-sub on a loaded topic, faulted permission request: C08 findings)"])
+        ctx, [("msg", 0.0, 0.17), ("perm", 0.0, 0.17), ("perm", 0.1, 0.1), ("permfault", 0.0, 0.28), ("life", 0.0, 0.28)],
+        lambda sc, views: monitor(sc, views, known_hit),
+        dict(ops=set(PUB_KINDS), frame=frame_f, line=line_f, keys=("frames", "store", "cache")),
+        rule="seeded random histories over one group topic plus me/fnd/sys: authors = owner, members, muted, write-less (want or given without W), banned, removed, never subscribed; publishes preceded by subscribe/set-sub/del-sub/leave histories (arbitrary mode strings) with Fail k / Crash k at every adapter-call position of the permission requests, unload/restart; the owner's {del topic} held open inside store.Topics.Delete (memverif call hook) with publishes dispatched meanwhile; suspension/resumption of the owner; publishes to me/fnd (attached or not) and sys (never attached); non-trivial = at least one accepted mutating request",
+        trusted=["projection compared for C03: every frame of a publish request (group topic, me, fnd, sys), the stored rows and the cached modes/lastID after every request, the paused/read-only bits of the loaded topic, the suspended accounts, me/fnd attachments, seqid/lastID/messages of sys",
+                 "the monitor takes the STORED subscription row as the definition of 'currently subscribed with W in both modes'; a failure of the iff is filed under a known finding only if the author's cached mode differs from the stored one AND one of the two named triggers hit that user since the topic was loaded (not-attached {set sub} of his own; faulted ownership-transfer request)",
+                 "harness/overlay/server/zz_verif_c03x_test.go: the {del topic} of the owner is held inside adapter.TopicDelete by a memverif call hook (db/memverif/zz_hook.go) while publishes are dispatched and awaited; {acc status=susp} is sent by a root session; the driver's sessions are not in the session store, so suspension does not evict them (eviction on suspension and login refusal are C11's)",
+                 "topic deletion is modelled for hub.topicUnreg case 1.1.1 only (owner, topic loaded, hard); other {del topic} requests are not issued"],
+        counts={"quick": 560, "thorough": 5000})
